@@ -81,6 +81,26 @@ N = {
  'C18-d': 'BitcoindClient.Start failing after the queue started, then Start again',
  'C19-d': 'a second Upgrade of the wtxmgr service in the same process',
  'C20-d': 'rebroadcast with an unconfirmed child spending two outputs of one unconfirmed parent',
+ 'C01-e': "confirmed spend of a credit reorged out while the credit's block survives, spender then abandoned / conflicted away, Balance with minconf >= 2",
+ 'C02-e': '>= 2 conflicting unconfirmed spenders of one wallet output, all removed without any of them confirming',
+ 'C03-e': 'ImportAccountDryRun, then another account created in the same scope (re-uses the number), then any address operation on it',
+ 'C04-e': 'address ids of exactly 32 bytes (taproot scope, witness / taproot scripts) before any transaction is recorded',
+ 'C05-e': 'normal manager with an imported xpub account, locked, Extend*Addresses on that account, then Unlock',
+ 'C06-e': 'two conflicting unconfirmed spends of one wallet credit known to the store; one removed (rejection / conflict)',
+ 'C07-e': 'fee rate that is not a multiple of 1000 sat/kvB with (rate % 1000) x vsize >= 1000',
+ 'C08-e': 'registered non-default key scope; a recovery batch finds an address of it and then fails',
+ 'C09-e': "a read-only account query between an issuing call's derivation and its commit callback",
+ 'C10-e': 'Rollback detaching only the block of a mined spend, write fault exactly at the Put that rewrites the credit as unspent',
+ 'C11-e': 'ForEach over a bucket that contains a nested bucket',
+ 'C12-e': 'lease whose expiry has a sub-second part >= 500 ms, observed between the reported expiry and the next whole second',
+ 'C13-e': 'confirmed tx whose foreign input precedes an input spending a mined wallet credit',
+ 'C14-e': 'tx whose input at position p spends prevout index n != p, mined, rolled back; later another tx spending parent:p confirms',
+ 'C15-e': 'reorg (longer new branch) delivered while the wallet is still rescanning at start-up',
+ 'C16-e': 'payment to an index more than W below the highest found index of its branch (address re-use / late first use)',
+ 'C17-e': 'concurrent Encrypt calls',
+ 'C18-e': 'BitcoindClient stopped without ever having subscribed to blocks',
+ 'C19-e': 'wtxmgr upgrade pending while the waddrmgr namespace is newer than understood or fails to upgrade',
+ 'C20-e': 'backend answer "mempool min fee not met"',
 }
 root='/verif/seeded'
 for n in sorted(os.listdir(root)):
@@ -100,7 +120,7 @@ for n in sorted(os.listdir(root)):
         json.dump(m, open(mp,'w'), indent=1)
         continue
     m['needs']=N.get(n, m.get('needs',''))
-    m['source']='independent sub-agent given only the property text and a scratch worktree (round %s)' % {'a':'1','b':'2','c':'3','d':'4'}.get(n[-1],'?')
+    m['source']='independent sub-agent given only the property text and a scratch worktree (round %s)' % {'a':'1','b':'2','c':'3','d':'4','e':'5'}.get(n[-1],'?')
     m['what_i_ran']='scripts/confirm_seed.py (fresh worktree of /repo HEAD: git apply --check, go build, existing tests of touched packages, demo fails with / passes without); scripts/seed_matrix.py (patch applied to /repo working tree, quick tier of the named checks, tree restored)'
     json.dump(m, open(mp,'w'), indent=1)
 print('ok')
